@@ -66,6 +66,13 @@ type Hook struct {
 	// OnKill is called right before SIGKILL (write what you want to keep).
 	OnKill func(ev Event)
 
+	// RetryAll: "" or a substring of a statement; the first attempt at EVERY block fails at the first
+	// operation on the block transaction whose SQL contains it (e.g. the pn_sync_version insert of
+	// InsertSynced, the last statement of a block), so every block is applied twice by the same process
+	RetryAll     string
+	retryFired   map[uint32]bool
+	RetryAllHits int
+
 	plan  *Plan
 	fired *Event
 
@@ -101,6 +108,7 @@ func (h *Hook) Reset() {
 	h.mu.Lock()
 	defer h.mu.Unlock()
 	h.plan, h.fired = nil, nil
+	h.retryFired, h.RetryAllHits = map[uint32]bool{}, 0
 	h.inBlock, h.txConn = false, nil
 	h.attempts = map[uint32]int{}
 	h.outcomes = map[uint32][]string{}
@@ -231,7 +239,15 @@ func (h *Hook) op(c *wConn, kind, query string) (string, Event, bool) {
 		h.log[ev.Block] = append(h.log[ev.Block], ev)
 	}
 	act, after := "", false
-	if p := h.plan; p != nil && h.fired == nil && p.Block == ev.Block && p.Attempt == ev.Attempt && p.Class == ev.Class && p.Index == ev.Index {
+	if h.RetryAll != "" && ev.Class == "tx" && ev.Attempt == 1 && !h.retryFired[ev.Block] && strings.Contains(ev.SQL, h.RetryAll) {
+		if h.retryFired == nil {
+			h.retryFired = map[uint32]bool{}
+		}
+		h.retryFired[ev.Block] = true
+		h.RetryAllHits++
+		act = "fail"
+	}
+	if p := h.plan; act == "" && p != nil && h.fired == nil && p.Block == ev.Block && p.Attempt == ev.Attempt && p.Class == ev.Class && p.Index == ev.Index {
 		e := ev
 		h.fired = &e
 		act, after = p.Action, p.After
